@@ -126,6 +126,12 @@ pub proof fn lemma_peek_keeps_ge(q1: Seq<Entry>, q2: Seq<Entry>, bound: u64, n: 
 {
     assert forall|i: int| 0 <= i < q2.len() implies (#[trigger] q2[i]).time >= t by { assert(q2[i] == q1[n + i]); }
 }
+pub proof fn lemma_head_later_than(q: Seq<Entry>, t: u64)
+    requires sorted(q), q.len() == 0 || q[0].time > t
+    ensures all_later(q, t)
+{
+    assert forall|i: int| 0 <= i < q.len() implies (#[trigger] q[i]).time > t by { if i > 0 { assert(key_le(q[0], q[i])); } }
+}
 pub proof fn lemma_head_later(q: Seq<Entry>, t: u64)
     requires sorted(q), all_ge(q, t), q.len() == 0 || q[0].time > t
     ensures all_later(q, t)
@@ -146,6 +152,8 @@ impl Simulation {
         ensures
             !final(self).scheduler_queue.locked(),                                               //@ C08 #lock-released-at-exit
             final(self).time.val() >= old(self).time.val(),                                      //@ C01 #time-never-decreases
+            res matches Ok(Some(tm)) ==> tm.t == final(self).time.val() && tm.t <= upper_time_bound.t,
+            res matches Ok(None) ==> final(self).time.val() == old(self).time.val(),
         //@]
     {
         // Function pulling the next action. If the action is periodic, it is
@@ -403,6 +411,69 @@ impl Simulation {
                     return Ok(Some(current_time));
                 }
             };
+        }
+    }
+//@end
+
+//@item src=nexosim/src/simulation.rs kind=fn name=step_until_unchecked within=`impl Simulation` rules=HOOK,GUARD,MAPUNIT,TIMEWRITE,RET
+    #[verifier::exec_allows_no_decreases_clause]   //@ termination is proved in the functional pass (unit sim); under havoc it depends on fairness
+    fn step_until_unchecked(&mut self, target_time: MonotonicTime) -> (res: Result<(), ExecutionError>)
+        //@[
+        requires
+            !old(self).scheduler_queue.locked(),
+            target_time.t >= old(self).time.val(),
+        ensures
+            !final(self).scheduler_queue.locked(),                                               //@ C08 #lock-released-at-exit
+            final(self).time.val() >= old(self).time.val(),                                      //@ C01 #time-never-decreases
+            res is Ok ==> final(self).time.val() == target_time.t,                               //@ C01 #reaches-target
+        //@]
+    {
+        loop
+            //@[
+            invariant
+                !self.scheduler_queue.locked(),
+                old(self).time.val() <= self.time.val() <= target_time.t,
+            //@]
+        {
+            match self.step_to_next_bounded(target_time) {
+                // The target time was reached exactly.
+                Ok(Some(t)) if t == target_time => {
+                    return Ok(())
+                },
+                // No actions are scheduled before or at the target time.
+                Ok(None) => {
+                    // Update the simulation time. The scheduler queue must be
+                    // locked while the time is updated, and inspected again:
+                    // since the lock was released, a scheduler handle on another
+                    // thread may have scheduled an action due before the target
+                    // time, which was validated against the former time.
+                    lock_queue(&mut self.scheduler_queue, &self.time);
+                    let ghost qh = self.scheduler_queue.view();     //@
+                    let next_is_due = match self.scheduler_queue.peek() {
+                        Some((key, _)) => key.0 <= target_time,
+                        None => false,
+                    };
+                    if !next_is_due {
+                        //@[
+                        proof {
+                            // nothing is due up to the target: moving the time to the target keeps every deadline in the future
+                            lemma_head_later_than(qh, target_time.t);
+                        }
+                        //@]
+                        write_time_locked(&mut self.time, target_time, &self.scheduler_queue);
+                    }
+                    unlock_queue(&mut self.scheduler_queue, &self.time);
+                    if next_is_due {
+                        continue;
+                    }
+                    self.clock.synchronize(target_time);
+                    return Ok(());
+                }
+                Err(e) => return Err(e),
+                // The target time was not reached yet.
+                _ => {
+                }
+            }
         }
     }
 //@end
